@@ -10,6 +10,11 @@ import (
 	"strings"
 	"time"
 
+	"encoding/asn1"
+
+	gcert "github.com/wokdav/gopki/generator/cert"
+	gconfig "github.com/wokdav/gopki/generator/config"
+
 	"verif/mc/drive"
 	"verif/mc/engine"
 	"verif/mc/refcfg"
@@ -24,6 +29,54 @@ type c02Case struct {
 	B    int `json:"b"`    // index of second deviation (-1 = none)
 	C    int `json:"c"`    // third (thorough product of the small dimensions), -1 = none
 	Draw int `json:"draw"` // k-th repetition with unconfigured serial (baseline only)
+	// Resign > 0: library interface - one certificate context (cert package) is signed with signature algorithm
+	// Resign-1 and then with each algorithm of the same family; every certificate is linted
+	Resign int `json:"resign,omitempty"`
+}
+
+func c02Resign(x *engine.Ctx, c *c02Case) {
+	first := refx509.SigAlgNames[c.Resign-1]
+	keyFix := "P-256-0"
+	if refx509.SigFamily(refx509.SigAlgByName[first]) == "RSA" {
+		keyFix = "RSA-2048-0"
+	}
+	pf, err := gcert.ReadPem(FixtureKeyPEM(keyFix))
+	if err != nil || pf.PrivateKey == nil {
+		x.Cap(fmt.Sprintf("fixture key unreadable: %v", err))
+		return
+	}
+	subj, _ := gconfig.ParseRDNSequence("CN=resign, O=C02")
+	for j, second := range refx509.SigAlgNames {
+		if refx509.SigFamily(refx509.SigAlgByName[second]) != refx509.SigFamily(refx509.SigAlgByName[first]) {
+			continue
+		}
+		ctx := gcert.NewCertificateContext(subj, nil, fixedTime(2020), fixedTime(2030))
+		if err := ctx.SetPrivateKey(pf.PrivateKey); err != nil {
+			x.Violation("C02/resign/set-key-failed", err.Error())
+			return
+		}
+		ctx.SetIssuer(gcert.AsIssuer(*ctx))
+		x.Nontrivial(fmt.Sprintf("resign %s %s", first, second))
+		for step, alg := range []int{c.Resign - 1, j} {
+			crt, err := ctx.Sign(gcert.SignatureAlgorithm(alg))
+			if err != nil || crt == nil {
+				x.Violation("C02/resign/sign-failed", fmt.Sprintf("%s then %s, signing #%d: %v", first, second, step+1, err))
+				break
+			}
+			der, err := asn1.Marshal(*crt)
+			if err != nil {
+				x.Violation("C02/resign/unencodable", err.Error())
+				break
+			}
+			for _, is := range refx509.LintCert(der, func(int, string) bool { return false }) {
+				x.Violation("C02/"+is.Class+" signed-twice", fmt.Sprintf("context signed with %s, then with %s; certificate #%d: %s", first, second, step+1, is.Detail))
+			}
+			if _, err := x509.ParseCertificate(der); err != nil {
+				x.Violation("C02/x509-rejects signed-twice", fmt.Sprintf("context signed with %s, then with %s; certificate #%d: %v", first, second, step+1, err))
+			}
+		}
+	}
+	x.Outcome("signed twice")
 }
 
 type c02Dev struct {
@@ -133,7 +186,7 @@ func c02Devs() []c02Dev {
 	// subordinate under an imported issuer certificate whose name another tool encoded
 	for _, o := range c01Origins[1:] {
 		o := o
-		if strings.HasPrefix(o, "printable-with-") {
+		if strings.HasPrefix(o, "printable-with-") || o == "empty-name" {
 			continue // the issuer field repeats the foreign bytes (C01); their repertoire slip is not gopki's encoding
 		}
 		add("issuer", "under-foreign-"+o, func(c *refcfg.CertCfg, aux *c02Aux) {
@@ -215,6 +268,9 @@ var c02DevList = c02Devs()
 var c02SmallDims = map[string]bool{"validity": true, "serial": true, "uid": true, "issuer": true, "zone": true}
 
 func c02Enumerate(tier string, yield func(any)) {
+	for k := range refx509.SigAlgNames {
+		yield(&c02Case{A: -1, B: -1, C: -1, Resign: k + 1})
+	}
 	n := len(c02DevList)
 	yield(&c02Case{A: -1, B: -1, C: -1})
 	draws := 200
@@ -252,6 +308,10 @@ func c02Enumerate(tier string, yield func(any)) {
 
 func c02Exec(x *engine.Ctx, cc any) {
 	c := cc.(*c02Case)
+	if c.Resign > 0 {
+		c02Resign(x, c)
+		return
+	}
 	if x.Replay {
 		// a random serial decides some classes: repeat a replayed case until it shows (bounded)
 		for k := 0; k < 64 && c02Once(x, c) == 0; k++ {
@@ -411,7 +471,7 @@ func init() {
 	register(&engine.Check{
 		ID:          "C02",
 		Level:       "exploration",
-		Rule:        fmt.Sprintf("baseline configuration +- up to 2 deviations drawn from %d values in 8 dimensions (incl. 5 local time zones of the process) (subject lengths across the 127/128 and 255/256 header transitions at every nesting level, validity across 1950/2049/2050/2200, 8 serial values, 12 unique-id settings, all 56 fitting key+signature algorithm pairs, 3 issuer key types, 25 extension sets incl. raw bodies of 127..65536 octets), all singles and all cross-dimension pairs, plus 200 unconfigured-serial draws; thorough adds every triple over the four small dimensions. Each certificate goes through a DER linter (minimal lengths, INTEGER, BOOLEAN, BIT STRING, OID, time forms, SET OF order, DEFAULT values absent, named-bit-list minimality), decode/re-encode, PEM re-encode, field comparison with the reference model, and crypto/x509 as second acceptor where it supports the curve. non-trivial = distinct deviation set that produced a certificate", len(c02DevList)),
+		Rule:        fmt.Sprintf("baseline configuration +- up to 2 deviations drawn from %d values in 8 dimensions (incl. 5 local time zones of the process) (subject lengths across the 127/128 and 255/256 header transitions at every nesting level, validity across 1950/2049/2050/2200, 8 serial values, 12 unique-id settings, all 56 fitting key+signature algorithm pairs, 3 issuer key types, 25 extension sets incl. raw bodies of 127..65536 octets), all singles and all cross-dimension pairs, plus 200 unconfigured-serial draws; thorough adds every triple over the four small dimensions. Each certificate goes through a DER linter (minimal lengths, INTEGER, BOOLEAN, BIT STRING, OID, time forms, SET OF order, DEFAULT values absent, named-bit-list minimality), decode/re-encode, PEM re-encode, field comparison with the reference model, and crypto/x509 as second acceptor where it supports the curve; through the cert package one certificate context signed twice (every ordered pair of signature algorithms of a family), both certificates through the same lint and parser. non-trivial = distinct deviation set that produced a certificate", len(c02DevList)),
 		Bound:       map[string]string{"deviations from baseline": "<=2 (thorough: 3 over validity/serial/uid/issuer)"},
 		Assumptions: []string{"configurations with manipulations are excluded by the statement", "negative configured serials are outside C03's domain", "unconfigured serials are random: 200+ draws observe the length distribution, the bound (<=20 octets) is also argued from the constant in the source"},
 		Budget:      budgets(quickBudget, thoroughBudget),
